@@ -34,6 +34,12 @@ const findingSeenCommit = "C13-seen-commit-unverified"
 // one leaves maxPeerHeight at the large value for good: IsCaughtUp stays false and block sync never hands over.
 const findingMaxPeerHeight = "C13-maxpeerheight-stuck"
 
+// findingNonCanonical: consensus accepts a proposal whose bytes are a non-canonical encoding of the block and commits
+// it under the part set header of those bytes. Block sync only ever transports the block (the store's LoadBlock +
+// ToProto on the serving side, MakePartSet on the receiving side), so nobody can reproduce that header: the canonical
+// block from honest peers fails the commit check ("wrong block ID") for ever and every honest sender is dropped.
+const findingNonCanonical = "C13-noncanonical-encoding-unsyncable"
+
 // findingRedoAssignee: on a failed pair poolRoutine asks the pool who holds the two requests NOW
 // (RedoRequest(height) -> requester.getPeerID()) instead of who delivered the two blocks it peeked. If a sender has
 // been removed in between (it hung up; or this is the immediate retry on blocks whose requesters have not been reset
@@ -282,6 +288,12 @@ func judge(n *node, out *outcome) *verdict {
 					}
 				}
 				n.wrap.mu.Unlock()
+				if strings.Contains(reason, "did not send us anything") || strings.Contains(reason, "not sending us data fast enough") {
+					// the pool's own (3 s) timeout hit a peer whose scripted answers were on their way: the harness was
+					// too slow, not the node wrong
+					v.infra = fmt.Sprintf("honest peer %d ran into the pool's peer timeout (%s): driver starved", i, reason)
+					continue
+				}
 				bad("honest peer %d was stopped for error (%s) although every block requested from it was answered with the canonical block; the only misbehaviour in this sync are unsolicited blocks pushed by other peers",
 					i, reason)
 			}
@@ -829,5 +841,146 @@ func TestRegressBystanderBlamed(t *testing.T) {
 	syncOnce(t, "TestRegressBystanderBlamed", sc, findingRedoAssignee)
 	if m := infra(); m != "" {
 		t.Fatalf("VERIF-INFRA: %s", m)
+	}
+}
+
+// honestOnly strips a generated scenario down to its canonical chain and its honest peers.
+func honestOnly(sc *scenario, reactor string) *scenario {
+	sc.Reactor, sc.Family, sc.Coalition, sc.Slow = reactor, "", nil, false
+	var peers []peerSpec
+	for _, p := range sc.Peers {
+		if p.Role == "liar" {
+			continue
+		}
+		p.BaseArg = 0 // v1 drops the base of a StatusResponse: a pruned peer is asked for blocks it does not have
+		for i := range p.Resp {
+			if p.Resp[i].Delay > 8 {
+				p.Resp[i].Delay = 8
+			}
+		}
+		peers = append(peers, p)
+	}
+	sc.Peers = peers
+	return sc
+}
+
+// TestSyncV1Honest: blockchain/v1 against honest peers only, over the same generated chains (validator-set changes,
+// nil/absent commit slots, short chains, initial height 1 or 7). Narrow oracle: everything stored is the canonical
+// prefix with genuine commits, nobody is stopped, the node reaches the tip and hands over. (Lying peers are left out
+// for v1: its FSM dereferences a removed pair on its own goroutine, see MUTANTS.md.)
+func TestSyncV1Honest(t *testing.T) {
+	rapid.Check(t, func(t *rapid.T) {
+		if infra() != "" {
+			return
+		}
+		sc := honestOnly(genScenario(t, "v1", false), "v1")
+		syncOnce(t, "TestSyncV1Honest", sc, "")
+	})
+	if m := infra(); m != "" {
+		t.Fatalf("VERIF-INFRA: %s", m)
+	}
+}
+
+// consensusAcceptsReencodedProposal feeds a real consensus.State (four validators, fresh chain, propose timeout far
+// away) the round-0 proposal of the legitimate proposer for a valid block whose parts are the re-encoded bytes, through
+// the public SetProposalAndBlock, and reports whether the state took it as its proposal block.
+func consensusAcceptsReencodedProposal(t *testing.T) bool {
+	sc := regressScenario("right")
+	sc.Heights = sc.Heights[:1]
+	sc.Peers = nil
+	chain, err := lib.NewChain(lib.ChainSpec{ChainID: "c13-chain", Keys: sc.Keys, Powers: sc.Powers})
+	if err != nil {
+		t.Fatalf("VERIF-INFRA: %v", err)
+	}
+	defer chain.Close()
+	proposeTimeout = 30 * time.Second // stay in (height 1, round 0, propose)
+	n, err := newNode(sc, chain)
+	proposeTimeout = 0
+	if err != nil {
+		t.Fatalf("VERIF-INFRA: %v", err)
+	}
+	defer n.close()
+	if err := n.cs.Start(); err != nil {
+		t.Fatalf("VERIF-INFRA: %v", err)
+	}
+	// wait for height 1 round 0 propose step
+	deadline := time.Now().Add(10 * time.Second)
+	for {
+		rs := n.cs.GetRoundState()
+		if rs.Height == 1 && rs.Round == 0 && rs.Step >= 3 { // RoundStepPropose
+			break
+		}
+		if time.Now().After(deadline) {
+			t.Fatalf("VERIF-INFRA: consensus did not enter the propose step (%v)", rs.Step)
+		}
+		time.Sleep(5 * time.Millisecond)
+	}
+	block, _ := chain.BuildNext(&lib.HeightPlan{Txs: [][]byte{[]byte("a=b")}})
+	parts := reencode(block)
+	blockID := types.BlockID{Hash: block.Hash(), PartSetHeader: parts.Header()}
+	prop := types.NewProposal(1, 0, -1, blockID)
+	pp := prop.ToProto()
+	k := lib.KeyIndex(chain.State.Validators.GetProposer().Address)
+	sig, err := lib.Key(k).Sign(types.ProposalSignBytes("c13-chain", pp))
+	if err != nil {
+		t.Fatalf("VERIF-INFRA: %v", err)
+	}
+	prop.Signature = sig
+	if err := n.cs.SetProposalAndBlock(prop, block, parts, "peer"); err != nil {
+		t.Fatalf("VERIF-INFRA: %v", err)
+	}
+	for i := 0; i < 400; i++ {
+		rs := n.cs.GetRoundState()
+		if rs.ProposalBlock != nil {
+			return true
+		}
+		if rs.ProposalBlockParts != nil && rs.ProposalBlockParts.IsComplete() && i > 100 {
+			return false // all parts in, no block taken: refused
+		}
+		time.Sleep(5 * time.Millisecond)
+	}
+	return false
+}
+
+// TestRegressNonCanonicalEncoding fails on the defect (findingNonCanonical). Part 1: does consensus take a proposal
+// whose parts are a non-canonical encoding of a valid block? If it refuses, chains with such a block cannot come into
+// being and there is nothing to sync. Part 2 (only if it accepts): an honest peer serves a chain whose third block was
+// committed that way; the node must still reach the tip without dropping the honest peer.
+func TestRegressNonCanonicalEncoding(t *testing.T) {
+	if !consensusAcceptsReencodedProposal(t) {
+		lib.Case("TestRegressNonCanonicalEncoding", lib.FP("refused"), true, "consensus:refuses-noncanonical-encoding")
+		return
+	}
+	sc := regressScenario("right")
+	sc.Heights[2].Reencoded = true
+	sc.Peers = sc.Peers[:1]
+	sc.Peers[0].Role, sc.Peers[0].Status, sc.Peers[0].StatusArg = "honest", "true", 0
+	chain, err := buildChain(sc)
+	if err != nil {
+		t.Fatalf("VERIF-INFRA: %v", err)
+	}
+	defer chain.Close()
+	n, err := newNode(sc, chain)
+	if err != nil {
+		t.Fatalf("VERIF-INFRA: %v", err)
+	}
+	out, err := n.run(12 * time.Second)
+	if err != nil {
+		t.Fatalf("VERIF-INFRA: %v", err)
+	}
+	top := n.blockStore.Height()
+	stops := 0
+	for _, d := range n.doubles {
+		if d.isStopped() {
+			stops++
+		}
+	}
+	hist := n.history()
+	n.close()
+	lib.Case("TestRegressNonCanonicalEncoding", lib.FP("accepted"), true, "consensus:accepts-noncanonical-encoding", fmt.Sprintf("store:%d", top))
+	if stops > 0 || top < n.tip-2 {
+		t.Fatalf("C13 violated ["+findingNonCanonical+"]: consensus accepts a proposal in a non-canonical encoding and would commit it under the part set header of those bytes; "+
+			"a chain whose block 3 was committed that way cannot be block-synced: store at %d of %d after %v, honest peers stopped %d times (hand-over: %v)\nhistory:\n%s",
+			top, n.tip, out.wall.Round(time.Second), stops, out.handover, hist)
 	}
 }
